@@ -353,6 +353,16 @@ mk B29; d=$D
 edit "$d/stats/binomdist.go" 's.replace("return mathx.BetaInc(1-d.P, float64(d.N-ki), k+1)", "return mathx.BetaInc(1-d.P, float64(d.N-ki), k)")'
 expect B29 "$d" C06 tie_failed tie_binom_CDF
 
+echo "== H17 harmless: IDom's predecessor loop without continue (nested ifs); the root test inverted"
+mk H17; d=$D
+edit "$d/graph/graphalg/dom.go" 's.replace("\t\t\t\tif idom[p] == -1 {\n\t\t\t\t\tcontinue\n\t\t\t\t}\n\t\t\t\tif newIdom == -1 {\n\t\t\t\t\tnewIdom = p\n\t\t\t\t\tcontinue\n\t\t\t\t}\n\t\t\t\tnewIdom = intersect(idom, poNum, p, newIdom)", "\t\t\t\tif idom[p] != -1 {\n\t\t\t\t\tif newIdom == -1 {\n\t\t\t\t\t\tnewIdom = p\n\t\t\t\t\t} else {\n\t\t\t\t\t\tnewIdom = intersect(idom, poNum, p, newIdom)\n\t\t\t\t\t}\n\t\t\t\t}")'
+expect H17 "$d" C19 ok
+
+echo "== B30 breaking: IDom also uses predecessors that have no idom yet"
+mk B30; d=$D
+edit "$d/graph/graphalg/dom.go" 's.replace("\t\t\t\tif idom[p] == -1 {\n\t\t\t\t\tcontinue\n\t\t\t\t}\n\t\t\t\tif newIdom == -1 {", "\t\t\t\tif newIdom == -1 {")'
+expect B30 "$d" C19 tie_failed tie_IDom
+
 if [ $FULL = 1 ]; then
   echo "== full check on B1: both ties report (correspondence finds a failing input)"
   out=$(VERIF_REPO="$B1" bin/check C13 quick 2>&1); rc=$?
